@@ -12,7 +12,7 @@
  *   rc    system configuration -> channel (init, optional reinit), run twice: with and without
  *         the junk-marked lines                                   -> "k R full|nojunk|refull|renojunk <dump>"
  *   opt   channel from options (+files), setters, then save->init, dup, csv->set, reinit
- *   fn    line-level internals: f=setopt|sortlist|srv|srvstrict|alias
+ *   fn    line-level internals: f=setopt|sortlist|setsort|srv|srvstrict|alias
  *   hosts hosts-file lookups (names=) with and without junk lines
  * Output never contains pointers or clock values.
  *
@@ -669,6 +669,24 @@ static void run_fn(long k, const params_t *p)
     for (i = 0; i < n; i++) { if (i) printf(","); dump_addr(&sl[i].addr); printf("/%u", (unsigned)sl[i].mask); }
     printf("\n");
     ares_free(sl);
+  } else if (strcmp(f, "setsort") == 0) {
+    /* ares_set_sortlist() on a channel that already has a sortlist */
+    ares_channel_t     *c = NULL;
+    struct ares_options o;
+    int                 rc, st0, st;
+    size_t              i;
+    memset(&o, 0, sizeof(o));
+    write_sysfiles(1, 0, 0);
+    o.resolvconf_path = path_resolv;
+    rc                = ares_init_options(&c, &o, ARES_OPT_RESOLVCONF);
+    if (rc != ARES_SUCCESS) { printf("%ld R setsort init=%d\n", k, rc); return; }
+    st0 = ares_set_sortlist(c, "10.0.0.0/8 192.168.0.0/255.255.0.0");
+    st  = ares_set_sortlist(c, arg);
+    printf("%ld R setsort st0=%d st=%d bit=%d sortlist=", k, st0, st, (c->optmask & ARES_OPT_SORTLIST) ? 1 : 0);
+    if (c->nsort == 0) printf("-");
+    for (i = 0; i < c->nsort; i++) { if (i) printf(","); dump_addr(&c->sortlist[i].addr); printf("/%u", (unsigned)c->sortlist[i].mask); }
+    printf("\n");
+    ares_destroy(c);
   } else if (strcmp(f, "srv") == 0 || strcmp(f, "srvstrict") == 0) {
     ares_channel_t     *c = NULL;
     struct ares_options o;
